@@ -81,4 +81,17 @@ def SignerWF (v3 : Bool) (s : Signer) : Prop :=
   s.sdSdk.1 < 2 ^ 32 ∧ s.sdSdk.2 < 2 ^ 32 ∧ s.sgSdk.1 < 2 ^ 32 ∧ s.sgSdk.2 < 2 ^ 32
 def PairWF (p : Pair) : Prop := p.1 < 2 ^ 32 ∧ p.2.length + 4 < 2 ^ 63
 
+/-- what must be reported for the pairs of a block, in order: id, "this id occurred before", value -/
+def reported : List Nat → List Pair → List (Nat × Bool × Bytes)
+  | _, [] => []
+  | seen, p :: ps => (p.1, seen.contains p.1, p.2) :: reported (seen ++ [p.1]) ps
+
+/-- hypotheses shared by the whole-file theorems: every pair fits its fields, the EOCD has its
+    12 counter bytes, the central-directory offset fits 32 bits. -/
+structure FileWF (pre : Bytes) (ps : List Pair) (mid : Bytes) : Prop where
+  pairs : ∀ p ∈ ps, PairWF p
+  mid : mid.length = 12
+  offset : pre.length + (encodeBlock ps).length < 2 ^ 32
+
+
 end AgVerif.Spec.SigBlock
